@@ -4,6 +4,7 @@ CONSTANTS
   Appended = {3, 4}
   Mode = "DELETE"
   NoSync = FALSE
+  HdrChunks = 1
 INVARIANT NeverReadsUnfinished
 INVARIANT PostCommitReadable
 INVARIANT AtomicCommit
